@@ -368,7 +368,9 @@ Definition bounds_ok (mn mx : bound) : Prop :=
 Fixpoint wf (sc : list nat) (e : expr) : Prop :=
   match e with
   | Str _ _ | Rx _ _ | Byte _ _ | Ref _ | Backtrack _ | Fail | Py _ => True
-  | Seq es | Choice es | Longest es =>
+  | Seq es =>
+      (fix all (l : list expr) : Prop := match l with [] => True | x :: l' => wf sc x /\ all l' end) es
+  | Choice es | Longest es =>
       es <> [] /\ (fix all (l : list expr) : Prop := match l with [] => True | x :: l' => wf sc x /\ all l' end) es
   | Skip es =>
       (fix all (l : list expr) : Prop := match l with [] => True | x :: l' => wf sc x /\ all l' end) es
@@ -378,7 +380,6 @@ Fixpoint wf (sc : list nat) (e : expr) : Prop :=
   | Rep e mn mx => wf sc e
   | Let x a b => ~ In x sc /\ wf sc a /\ wf (x :: sc) b
   | Class _ ms =>
-      ms <> [] /\
       (fix go (sc : list nat) (ms : list (option nat * bool * expr)) : Prop :=
          match ms with
          | [] => True
@@ -545,7 +546,10 @@ Proof.
     destruct (PEG n [] bd (pos s)) as [| | |v p'], (EXEC n bd (fresh (pos s))) as [c| |]; try contradiction; cbn; auto.
     + destruct H as (A & _). repeat split; auto. intros; discriminate.
     + destruct H as (A & B & C & _). auto.
-  - (* Seq *) cbn [wf] in Hwf. destruct Hwf as (Hne & Hall). apply all_Forall in Hall.
+  - (* Seq *) cbn [wf] in Hwf. pose proof Hwf as Hall. apply all_Forall in Hall.
+    destruct es as [|e0 es0]; [cbn; repeat split; auto|].
+    assert (Hne : e0 :: es0 <> []) by discriminate. set (es := e0 :: es0) in *.
+    change (agree E (Seq es) (pos s) (seq_spec (PEG n E) es (pos s) []) (seq_loop (EXEC n) es s [])).
     pose proof (seq_ok (PEG n E) (EXEC n) E (wf sc) IHl es s [] Hall HS) as H. unfold agree.
     destruct (seq_loop (EXEC n) es s []), (seq_spec (PEG n E) es (pos s) []) as [| | |v p']; auto.
     + destruct H as (A & B). repeat split; auto. cbn. discriminate.
@@ -723,7 +727,11 @@ Proof.
       * destruct H as (A & B & C & D). repeat split; auto. eapply sub_drop; eauto.
     + replace (always a || status s1) with false by (rewrite H1, H2; auto).
       repeat split; auto; rewrite H2; auto; cbn; discriminate.
-  - (* Class *) cbn [wf] in Hwf. destruct Hwf as (Hne & Hwf).
+  - (* Class *) cbn [wf] in Hwf.
+    destruct ms as [|m0 ms0]; [cbn; repeat split; auto|].
+    assert (Hne : m0 :: ms0 <> []) by discriminate. set (ms := m0 :: ms0) in *.
+    change (agree E (Class cls ms) (pos s) (class_spec (PEG n) cls (pos s) ms E (pos s) [])
+                  (class_loop (EXEC n) cls (pos s) ms s [])).
     pose proof (class_ok n IHn cls (pos s) ms sc E s [] Hwf Hsc HS E sc Hsc (fun L HL => HL)) as H.
     unfold agree.
     change (always (Class cls ms)) with (members_always ms).
